@@ -8,6 +8,7 @@
   R3  commit refuses a wrong job count: every write of commit_batch_update sits under staging_n_jobs = expected_n_jobs, the other
       branch rolls back and returns a non-zero rc, and the front end turns that into an error response
   R4  duplicate parents are rejected (ER_DUP_ENTRY on job_parents -> HTTP 400) and the job-spec validator demands contiguous job ids
+  R5  the id fields of the job spec are validated as integers: the comparisons of R1/R2 are made on the value that is stored
 Not decided: anything about graphs once R1 holds (with parent < child the dependency relation is acyclic by construction).
 """
 from __future__ import annotations
@@ -221,12 +222,67 @@ def r4(ctx: Ctx) -> None:
     ctx.check(contiguous, 'R4', f'{VAL}::validate_and_clean_jobs::contiguous ids', 'job ids within a bunch are not required to be contiguous', vm.path, vfn.lineno)
 
 
+ID_KEYS = ('job_id', 'parent_ids', 'absolute_parent_ids', 'in_update_parent_ids')
+
+
+def _accepted_types(vm: pf.Module, e: ast.AST, depth: int = 5) -> Optional[Set[str]]:
+    """Python types a hailtop.utils.validate validator expression lets through (element types for listof); None = not recognised."""
+    if depth <= 0:
+        return None
+    if isinstance(e, ast.Name):
+        table = {'int_type': {'int'}, 'str_type': {'str'}, 'bool_type': {'bool'}, 'non_empty_str_type': {'str'}}
+        if e.id in table:
+            return table[e.id]
+        try:
+            return _accepted_types(vm, vm.global_assign(e.id), depth - 1)
+        except AnalysisError:
+            return None
+    if isinstance(e, ast.Call):
+        f = (pf.dotted(e.func) or '').split('.')[-1]
+        if f in ('listof', 'nullable') and len(e.args) == 1:
+            inner = _accepted_types(vm, e.args[0], depth - 1)
+            return None if inner is None else (inner | {'None'} if f == 'nullable' else inner)
+        if f == 'numeric':
+            return {'int', 'float'}
+        if f == 'TypedValidator' and len(e.args) == 1:
+            t = e.args[0]
+            if isinstance(t, ast.Name):
+                return {t.id}
+            if isinstance(t, ast.Tuple) and all(isinstance(x, ast.Name) for x in t.elts):
+                return {x.id for x in t.elts}  # type: ignore[attr-defined]
+        if f in ('anyof', 'MultipleValidator'):
+            return None
+    return None
+
+
+def r5(ctx: Ctx) -> None:
+    """The ids of the dependency graph are integers at the API boundary: a fractional JSON number passes `parent < child` / `>= 1` as a
+    float and is then rounded by the INT column (1.6 -> 2), so the stored edge is not the edge that was validated (self / forward edge)."""
+    vm = pf.load(VAL)
+    jv = vm.global_assign('job_validator')
+    d = jv.args[0] if isinstance(jv, ast.Call) and jv.args and isinstance(jv.args[0], ast.Dict) else (jv if isinstance(jv, ast.Dict) else None)
+    ctx.need(isinstance(d, ast.Dict), f'{VAL}::job_validator is not keyed(<dict literal>)')
+    seen = set()
+    for k, v in zip(d.keys, d.values):  # type: ignore[union-attr]
+        key = pf.const_str(k.args[0]) if isinstance(k, ast.Call) and (pf.dotted(k.func) or '').split('.')[-1] == 'required' and k.args else pf.const_str(k) if k is not None else None
+        if key not in ID_KEYS:
+            continue
+        seen.add(key)
+        ts = _accepted_types(vm, v)
+        ctx.need(ts is not None, f'{VAL}::job_validator[{key!r}]: validator `{pf.nsrc(v)}` not recognised')
+        ctx.check(ts <= {'int'}, 'R5', f'{VAL}::job_validator::{key} is an integer', f'`{pf.nsrc(v)}` lets {sorted(ts - {"int"})} values through for {key}: e.g. parent id 1.6 on job 2 satisfies '  # type: ignore[operator]
+                  '1 <= parent < child as a float and is stored as 2 by the INT column of job_parents -- a self dependency that never resolves', vm.path, getattr(v, 'lineno', 0))
+    ctx.need(seen >= {'job_id', 'absolute_parent_ids', 'in_update_parent_ids'}, f'{VAL}::job_validator: id keys found: {sorted(seen)}')
+
+
 def run(ctx: Ctx) -> None:
     ctx.explanation = 'Must-validate taint rule over the job submission path plus guard structure of commit_batch_update.'
     ctx.rule('R1', 'parent ids are validated against the job\'s own id (parent < child, parent exists) before reaching job_parents', 2)
     ctx.rule('R2', 'job id is validated against the update\'s reserved range before reaching jobs', 1)
     ctx.rule('R3', 'commit refuses a wrong job count: all writes under the equality guard; refusal rolls back with rc != 0; front end checks rc', 7)
     ctx.rule('R4', 'duplicate parents rejected; contiguous job ids demanded', 2)
+    ctx.rule('R5', 'job ids and parent ids are validated as integers (no fractional ids rounded by the INT columns after validation)', 4)
     r1_r2(ctx)
     r3(ctx)
     r4(ctx)
+    r5(ctx)
